@@ -8,7 +8,7 @@ TAG=$(echo "$P-$PATCH" | sha1sum | cut -c1-8)
 COPY=/tmp/seedrun_$TAG
 rm -rf "$COPY"; mkdir -p "$COPY"
 rsync -a --exclude target --exclude .git /repo/ "$COPY"/
-( cd "$COPY" && git init -q . && git apply "$PATCH" ) || { echo "PATCH DOES NOT APPLY"; rm -rf "$COPY"; exit 2; }
+PATCH=$(readlink -f "$PATCH"); ( cd "$COPY" && git init -q . && git apply "$PATCH" ) || { echo "PATCH DOES NOT APPLY"; rm -rf "$COPY"; exit 2; }
 cd /verif
 VERIF_REPO=$COPY ./check "$P" --tier "$TIER" > /tmp/seedrun_$TAG.out 2> /tmp/seedrun_$TAG.err
 RC=$?
